@@ -72,6 +72,48 @@ func deepCopy(v Value, memo map[interface{}]Value) Value {
 	return v
 }
 
+// mergeDecoded stores the decoded struct src (type t) into *dst member by member.
+func (m *Machine) mergeDecoded(dst *Value, src Value, t types.Type, path string, omit []string) {
+	st, ok := t.Underlying().(*types.Struct)
+	ss, ok2 := src.(Struct)
+	ds, ok3 := (*dst).(Struct)
+	if !ok || !ok2 || !ok3 || len(ss) != len(ds) {
+		store(dst, src)
+		return
+	}
+	for i := 0; i < st.NumFields(); i++ {
+		f := st.Field(i)
+		fp := f.Name()
+		if path != "" {
+			fp = path + "." + fp
+		}
+		skip := false
+		for _, o := range omit {
+			if o == fp {
+				skip = true
+			}
+		}
+		if skip {
+			continue
+		}
+		if pt, isPtr := f.Type().Underlying().(*types.Pointer); isPtr {
+			sp, _ := ss[i].(*Value)
+			if sp == nil {
+				continue // AVP absent
+			}
+			if dp, _ := ds[i].(*Value); dp != nil {
+				if _, isStruct := pt.Elem().Underlying().(*types.Struct); isStruct {
+					m.mergeDecoded(dp, *sp, pt.Elem(), fp, omit)
+					continue
+				}
+			}
+			ds[i] = sp
+			continue
+		}
+		store(&ds[i], ss[i])
+	}
+}
+
 // ioYield is a scheduling point at an I/O stub (database call, message
 // encode, socket write) when the harness asked for it (Config "sched.ioYield").
 func (m *Machine) ioYield() {
@@ -115,6 +157,7 @@ type diamMsg struct {
 	session string
 	reqOf   *diamMsg // answers: the request this message answers
 	answer  *diamMsg // requests: the answer written for it
+	omit    []string // member paths whose AVP is absent from the message (vx.OmitAVP)
 }
 
 type diamConn struct {
@@ -350,11 +393,20 @@ func init() {
 		if msg.body == nil {
 			return m.newError("unmarshal: empty message")
 		}
+		if m.cfg("diam.unmarshalMayFail") && m.Choose(2) == 1 {
+			// e.g. an answer under another application id: AVP lookup fails
+			m.events = append(m.events, "unmarshal failed")
+			return m.newError("unmarshal failed")
+		}
 		if !types.Identical(deref(dst.T), msg.bodyT) {
 			// different struct: go-diameter matches AVPs by name; not modelled
 			m.unsupported("diam Unmarshal into %v of a message marshalled from %v", dst.T, msg.bodyT)
 		}
-		store(p, deepCopy(msg.body, map[interface{}]Value{}))
+		// go-diameter writes only the members whose AVP is present: an absent
+		// grouped AVP (nil pointer on the sender's side) or an AVP the sender
+		// left out (vx.OmitAVP) leaves the destination member as it is, and a
+		// destination pointer that is already set is reused
+		m.mergeDecoded(p, deepCopy(msg.body, map[interface{}]Value{}), msg.bodyT, "", msg.omit)
 		return Iface{}
 	}
 	I["(*"+diamPkg+".Message).Answer"] = func(m *Machine, fr *frame, args []Value) Value {
